@@ -251,6 +251,22 @@ Theorem C17_store_churn_stable : forall tbl ops st id,
 Proof. exact store_churn_stable. Qed.
 Print Assumptions C17_store_churn_stable.
 
+(* in the trace semantics the check replays: a value the driver keeps alive (`keep`, `keepz`)
+   reads the same after ANY later operations (pool churn, more conversions, more keeps) *)
+Theorem C17_kept_stable : forall ops st i d, (i < List.length (sa_kept st))%nat ->
+  nth i (sa_kept (fold_left sockaddr_step ops st)) d = nth i (sa_kept st) d.
+Proof. exact kept_stable. Qed.
+Print Assumptions C17_kept_stable.
+
+(* the premise that makes the value-level model of itod faithful over time: sockaddr.go gets
+   one buffer from the byte-slice pool (itod) and never puts one back, so the zone string
+   is the only holder of its memory (pool_sites is regenerated from the source each run:
+   obligation GenSockPool.v:sockaddr_pool_sites_as_modelled) *)
+Theorem C17_pool_sites_no_put : forall fn callee a d, In (fn, callee, a, d) pool_sites ->
+  fn = "itod"%string /\ callee = "Get"%string /\ d = false.
+Proof. exact pool_sites_no_put. Qed.
+Print Assumptions C17_pool_sites_no_put.
+
 (* ---- non-vacuity: concrete instances evaluated by the kernel ---- *)
 Definition ex_tbl : list iface := [([108;111], 1); ([101;116;104;48], 4)].   (* lo=1, eth0=4 *)
 Definition ex_ll : bytes := [254;128;0;0;0;0;0;0;0;252;0;255;254;0;0;1].    (* fe80::fc:ff:fe00:1 *)
@@ -282,4 +298,13 @@ Example C17_ex_churn :
      [COpen 8 None (Some (SA4 1 [10;0;0;1])); CClose 8; COpen 9 None (Some (SAUnix [])); COpen 8 None None]
      (store_step ex_tbl [] (COpen 7 (Some (NTCP (Some [127;0;0;1]) 9000 [])) (Some (SA4 40000 [127;0;0;1])))))
   = Some (Some (NTCP (Some [127;0;0;1]) 9000 []), Ret (Some (NTCP (Some [127;0;0;1]) 40000 []))).
+Proof. vm_compute; reflexivity. Qed.
+Example C17_ex_kept :
+  run_sockaddr [("keep"%string, [ASym "tcp"%string; ASym "sa6"%string; AInt 1; AInt 9999; ABytes ex_ll]);
+                ("churn"%string, [AInt 3]);
+                ("keepz"%string, [AInt 1234]);
+                ("recheck"%string, [AInt 0])]
+  = [("na"%string, [ASym "tcp"%string; ABytes ex_ll; AInt 1; ABytes [57;57;57;57]]);
+     ("zs"%string, [ABytes [49;50;51;52]]);
+     ("na"%string, [ASym "tcp"%string; ABytes ex_ll; AInt 1; ABytes [57;57;57;57]])].
 Proof. vm_compute; reflexivity. Qed.
